@@ -17,7 +17,7 @@ def run(res):
     if res.violations:
         return
     keep = dict(obl=res.cov["obligations"], dis=res.cov["discharged"], th=list(res.cov.get("theorems", [])))
-    brokercheck.run(res, "C06", ["Props/C06.v", "Props/C06_ledgers.v"], monitors.monitor_c06, nontrivial=nontrivial)
+    brokercheck.run(res, "C06", ["Props/C06.v", "Props/C06_ledgers.v", "Props/Bridge.v"], monitors.monitor_c06, nontrivial=nontrivial)
 
 
 def replay(path):
